@@ -139,7 +139,9 @@ class RelativeValueIteration(ValueIteration):
     def _initialize_solver_state_elements(self) -> None:
         """Initialize solver state elements."""
         super()._initialize_solver_state_elements()
-        self.gain = 0.0
+        # Reference the gain to the last state's initial value estimate so that
+        # the gain reported after the first iteration is a one-step difference
+        self.gain = self.values[-1]
 
     def _iteration_step(self) -> tuple[ValueFunction, float]:
         """Perform one iteration of the solution algorithm.
